@@ -159,6 +159,10 @@ package httpgen
 //@   at-call reflect.Append requires converted_value: count("convertStringToFieldValue") > old(count("convertStringToFieldValue")) && lastErrNil("convertStringToFieldValue") && arg0 == lastRetAs("convertStringToFieldValue", protoreflect.Value)
 //@   at-call reflect.Set requires into_the_configured_field: 0 <= _i1 && _i1 < len(params) && arg0 == msg.ProtoReflect().Descriptor().Fields().ByName(protoreflect.Name(params[_i1].FieldName))
 //@   at-call convertStringToFieldValue requires from_the_query_and_by_kind: 0 <= _i1 && _i1 < len(params) && arg1 == msg.ProtoReflect().Descriptor().Fields().ByName(protoreflect.Name(params[_i1].FieldName)).Kind() && len(r.URL.Query()[params[_i1].QueryName]) > 0 && (!msg.ProtoReflect().Descriptor().Fields().ByName(protoreflect.Name(params[_i1].FieldName)).IsList() ==> arg0 == r.URL.Query()[params[_i1].QueryName][0])
+// a repeated field takes one element per occurrence of the parameter, in order, each converted from that occurrence's
+// whole (decoded) value: the k-th element is the k-th occurrence, nothing is split, joined or skipped
+//@   at-call convertStringToFieldValue requires one_element_per_occurrence: msg.ProtoReflect().Descriptor().Fields().ByName(protoreflect.Name(params[_i1].FieldName)).IsList() ==> 0 <= _i2 && _i2 < len(r.URL.Query()[params[_i1].QueryName]) && arg0 == r.URL.Query()[params[_i1].QueryName][_i2]
+//@   at-call reflect.Append requires appended_in_order: 0 <= _i2 && _i2 < len(r.URL.Query()[params[_i1].QueryName])
 //@ emitted func bindDataBasedOnContentType(r *nethttp.Request, toBind any) (err error)
 //@   modifies *
 //@   ensures one_decoder: (count("bindDataFromJSONRequest") - old(count("bindDataFromJSONRequest"))) + (count("bindDataFromBinaryRequest") - old(count("bindDataFromBinaryRequest"))) == 1
